@@ -91,7 +91,7 @@ def config_home(cfg_text):
 
 
 class Res:
-    __slots__ = ("status", "out", "err", "sig", "cpu_timeout", "wall_timeout", "argv")
+    __slots__ = ("status", "out", "err", "sig", "cpu_timeout", "wall_timeout", "argv", "blocked")
 
     def __init__(self, status, out, err, sig, cpu_timeout, wall_timeout, argv):
         self.status = status
@@ -101,6 +101,7 @@ class Res:
         self.cpu_timeout = cpu_timeout
         self.wall_timeout = wall_timeout
         self.argv = argv
+        self.blocked = ""
 
     @property
     def panicked(self):
@@ -165,6 +166,13 @@ def run(argv, cwd, cfg=None, tz="UTC", nobody=False, extra_env=None, cpu=CPU_LIM
         out, err = p.communicate(timeout=wall)
     except subprocess.TimeoutExpired:
         wall_to = True
+        # what the process was doing when its time ran out: "257 ..." = sleeping inside openat (a FIFO without a
+        # writer), "running" = computing. Lets a check tell a blocked open from a slow machine.
+        try:
+            with open("/proc/%d/syscall" % p.pid) as fh:
+                blocked = fh.read().strip()
+        except OSError:
+            blocked = ""
         try:
             os.killpg(p.pid, signal.SIGKILL)
         except OSError:
@@ -173,7 +181,9 @@ def run(argv, cwd, cfg=None, tz="UTC", nobody=False, extra_env=None, cpu=CPU_LIM
     rc = p.returncode
     sig = -rc if rc < 0 else None
     cpu_to = sig in (signal.SIGXCPU, signal.SIGKILL) and not wall_to
-    return Res(rc if rc >= 0 else None, out, err, sig, cpu_to, wall_to, list(argv))
+    res = Res(rc if rc >= 0 else None, out, err, sig, cpu_to, wall_to, list(argv))
+    res.blocked = blocked if wall_to else ""
+    return res
 
 
 def rows(out, ncols):
